@@ -141,7 +141,14 @@ fn magic_field_decl(recvs: &[Recv], r: &Recv, m: &Magic) -> (String, String) {
     let (name, base): (&str, String) = match m.kind {
         MagicKind::Ident => ("ident", if r.tr == Trait::Field { "Option<syn::Ident>".into() } else { "syn::Ident".into() }),
         MagicKind::Vis => ("vis", "syn::Visibility".into()),
-        MagicKind::Generics => ("generics", if m.own_generics { "::darling::ast::Generics<::darling::ast::GenericParam>".into() } else { "syn::Generics".into() }),
+        MagicKind::Generics => (
+            "generics",
+            match m.tparam_recv {
+                Some(tp) => format!("::darling::ast::Generics<::darling::ast::GenericParam<{}>>", recvs[tp].name()),
+                None if m.own_generics => "::darling::ast::Generics<::darling::ast::GenericParam>".into(),
+                None => "syn::Generics".into(),
+            },
+        ),
         MagicKind::Ty => ("ty", "syn::Type".into()),
         MagicKind::Bounds => ("bounds", "Vec<syn::TypeParamBound>".into()),
         MagicKind::Default => ("default", "Option<syn::Type>".into()),
@@ -253,7 +260,11 @@ pub fn emit_recv(recvs: &[Recv], r: &Recv, out: &mut String) {
             }
             for mg in &r.magic {
                 let (n, _) = magic_field_decl(recvs, r, mg);
-                out.push_str(&format!("m.insert(String::from(\"@{n}\"), ::vf_support::Dump::dump(&self.{n})); "));
+                if mg.kind == MagicKind::Generics && mg.tparam_recv.is_some() {
+                    out.push_str(&format!("m.insert(String::from(\"@{n}\"), ::vf_support::dump_tp_generics(&self.{n})); "));
+                } else {
+                    out.push_str(&format!("m.insert(String::from(\"@{n}\"), ::vf_support::Dump::dump(&self.{n})); "));
+                }
             }
             if r.attrs_field.is_some() {
                 out.push_str("m.insert(String::from(\"@attrs\"), ::vf_support::Dump::dump(&self.attrs)); ");
@@ -656,6 +667,9 @@ pub fn emit_shard(recvs: &[Recv], ids: &[usize]) -> String {
                 visit(recvs, i, need);
             }
             if let Some(i) = m.field_recv {
+                visit(recvs, i, need);
+            }
+            if let Some(i) = m.tparam_recv {
                 visit(recvs, i, need);
             }
         }
